@@ -154,11 +154,12 @@ func (dm *DMap) lookupOnOwners(hkey uint64, key string) []*version {
 	}
 
 	var versions []*version
-	versions = append(versions, dm.lookupOnThisNode(hkey, key))
 
-	// Run a query on the previous owners.
-	// Traverse in reverse order. Except from the latest host, this one.
-	for i := len(owners) - 2; i >= 0; i-- {
+	// Run a query on the previous owners first, starting from the oldest one, and on this
+	// node last. The balancer moves the fragments in that direction: looking up in the
+	// opposite order misses a key that is handed over between two lookups, because it has
+	// not arrived here yet and is already gone from the previous owner a moment later.
+	for i := 0; i <= len(owners)-2; i++ {
 		owner := owners[i]
 		v, err := dm.lookupOnPreviousOwner(&owner, key)
 		if err != nil {
@@ -172,6 +173,7 @@ func (dm *DMap) lookupOnOwners(hkey uint64, key string) []*version {
 		// by the balancer.
 		versions = append(versions, v)
 	}
+	versions = append(versions, dm.lookupOnThisNode(hkey, key))
 	return versions
 }
 
